@@ -51,6 +51,20 @@ impl TkWorld {
                 env.ledger().set_sequence_number(pu32(t[2]));
                 ("ok".into(), String::new())
             }
+            "probe_extra" => {
+                // probe_extra <addresses> <tokens>: every exported function of the contract that the model does not know is
+                // called without any authorisation (none exists on the unchanged tree apart from the `todo!()` stubs of the
+                // token); whatever it does, the modelled state must not change — the following queries show it
+                let known: [&str; 21] = ["__constructor", "set_admin", "admin", "mint", "token_id", "is_minter", "mint_from", "add_minter", "remove_minter", "allowance", "approve", "balance", "transfer", "transfer_from", "burn", "burn_from", "decimals", "name", "symbol", "owner", "transfer_ownership"];
+                let addrs: Vec<Address> = t[1].split(',').filter(|x| !x.is_empty() && *x != "-").map(|x| Addr::parse(x).sdk(&env)).collect();
+                let toks: Vec<(Address, i128)> = t[2].split(',').filter(|x| !x.is_empty() && *x != "-").map(|x| (Addr::parse(x).sdk(&env), 1i128)).collect();
+                let mut names = vec![];
+                if let Some(c) = self.tk.clone() {
+                    names = probe_unknown_entry_points(&env, &c, "/repo/contracts/interchain-token/src/contract.rs", &known, &addrs, &toks);
+                }
+                let _ = self.events();
+                ("ok".into(), format!("probed={}", names.join(",")))
+            }
             "tk.new" => {
                 let addr = Addr::parse(t[1]).sdk(&env);
                 let owner = Addr::parse(t[2]).sdk(&env);
